@@ -119,7 +119,7 @@ fn memory_config(m: &Matter<'_>) -> Vec<FabSummary> {
                 root: digest(&f.root_ca().to_vec()),
                 noc: digest(&f.noc().to_vec()),
                 acl: f.acl_iter().map(|e| format!("{:?}", e)).collect(),
-                groups: format!("{:?}/{:?}", f.groups().key_set_iter().map(|k| k.group_key_set_id).collect::<Vec<_>>(), f.groups().key_map_iter().map(|k| (k.group_id, k.group_key_set_id)).collect::<Vec<_>>()),
+                groups: format!("{:?}/{:?}", f.groups().key_set_iter().map(|k| (k.group_key_set_id, digest(&format!("{:?}", k)) % 100_000)).collect::<Vec<_>>(), f.groups().key_map_iter().map(|k| (k.group_id, k.group_key_set_id)).collect::<Vec<_>>()),
             })
             .collect();
         v.sort_by_key(|f| f.idx);
